@@ -145,4 +145,16 @@ theorem cmpKVs_eq : (xs ys : List (Obj × Obj)) → isDataKVs xs = true → isDa
       · rfl
 end
 
+theorem cmpD_eq (a b : Obj) : cmpD a b = cmpI a b := by
+  unfold cmpD
+  split
+  · rename_i h
+    simp only [Bool.and_eq_true] at h
+    rw [cmp_eq a b h.1 h.2]; rfl
+  · rfl
+
+theorem cmpD_PW (a : Obj) : PW cmpD a := by
+  have : cmpD = cmpI := by funext x y; exact cmpD_eq x y
+  rw [this]; exact cmpI_PW a
+
 end Grol.Obj
